@@ -43,6 +43,17 @@ struct EngineA {
         Rng pick = sim::stream(run_seed, "menu");
         const CfgEntry *e = menu[pick.below(menu.size())];
         GenCtx g{run_seed, run_index, opt.prop, opt.tier, opt.profile, tsan};
+        if (scale_slot(g) && pick.coin()) {
+            // scale slots: half of them go to the configurations whose scale recipes reach furthest for this property
+            std::vector<const CfgEntry *> pref;
+            for (auto c : menu) {
+                bool k64 = c->name.find(":i64") != std::string::npos || c->name.find(":u64") != std::string::npos;
+                bool k32 = c->name.find(":i32") != std::string::npos || c->name.find(":u32") != std::string::npos;
+                if ((opt.prop == "C03" || opt.prop == "C04" || opt.prop == "C17") && k64 && (c->cls == "seg" || c->cls == "pgm")) pref.push_back(c);
+                if (opt.prop == "C19" && (k64 || k32) && c->eps <= 8 && (c->cls == "comp" || c->cls == "ef")) pref.push_back(c);
+            }
+            if (!pref.empty()) e = pref[pick.below(pref.size())];
+        }
         PlanText p = e->gen(*e, g, st);
         p.set("seed", run_seed);
         return p;
